@@ -3,12 +3,72 @@
     [Print Assumptions]. *)
 From Coq Require Import List ZArith.
 From Webp Require Import Anim.Blend Anim.Canvas Anim.AnimDec Anim.AnimEncModel Anim.AnimEncSpec
-  Anim.AnimEncWitness.
+  Anim.AnimEncLemmas Anim.AnimEncProofs Anim.AnimEncMain Anim.AnimEncWitness.
+From WebpGen Require Consts.
 Import ListNotations.
 Open Scope Z_scope.
 
-(** The statement is false of the code as pinned: an unchanged semi-transparent
-    pixel inside a blended sub-frame is composited onto itself (alpha 128 -> 192). *)
+(** For every lossless frame codec (decode after encode is the identity up to
+    the colour of fully transparent pixels), canvas size, option record (any
+    Kmin/Kmax, loop count 0..65535), non-empty list of frames (any sizes, any
+    pixels, durations 0..2^24-1), every outcome of the encoder's size comparisons
+    ([oracle], [simple]): what the decoder plays from the file written by
+    NewEncoder / AddFrame* / Close is the show that was added — same canvas size;
+    the same sequence of distinct pictures (fully transparent pixels compare equal);
+    and, when there are at least two distinct pictures, the same display time for
+    every picture (merged repeats and overflow filler frames included), the same
+    loop count, and a real animation (not a still).
+    Model of the code under test: [repaired]. *)
+Theorem C08_anim_lossless_roundtrip :
+  forall (rt_ll rt_ly : img -> img) (W H : Z) (opts : eopts) (frames : list (img * Z))
+         (oracle : nat -> orc) (simple : bool) (st0 : est) (out : output),
+    codec_lossless rt_ll ->
+    wf_canvas_dims W H -> lossless_opts opts -> frames <> [] -> Forall wf_input frames ->
+    new_encoder W H opts = Some st0 ->
+    close simple (run_frames repaired oracle st0 frames) = Some out ->
+    same_show W H (eo_loop opts) out (playback rt_ll rt_ly repaired out) (inputs_of W H frames).
+Proof. exact anim_lossless_roundtrip. Qed.
+Print Assumptions C08_anim_lossless_roundtrip.
+
+(** The hypotheses are satisfiable and the conclusion is not trivial: the
+    sessions of the two historical defects, on the repaired model. *)
+Theorem C08_example_semitransparent_kept :
+  option_map (map (fun e => nth 0 (fst e) px0)) (w1_played repaired)
+  = Some [mkpx 10 20 30 128; mkpx 10 20 30 128].
+Proof. exact w1_repaired_shows_128. Qed.
+Print Assumptions C08_example_semitransparent_kept.
+
+Theorem C08_example_filler_then_dispose :
+  w2_last repaired = Some ([G;T;T;T; T;T;T;T; T;T;T;T; T;T;T;T], 10).
+Proof. exact w2_repaired_clears_block. Qed.
+Print Assumptions C08_example_filler_then_dispose.
+
+(** Per-step lemmas. *)
+Theorem C08_changed_rect_covers_diff : forall W H prev curr x y,
+  0 < W -> 0 < H -> 0 <= x < W -> 0 <= y < H ->
+  px_diff W prev curr x y = true -> in_rect (find_changed_rect W H prev curr) x y = true.
+Proof. exact changed_rect_covers_diff. Qed.
+Print Assumptions C08_changed_rect_covers_diff.
+
+(** snapToEven + clipping: still inside the canvas, non-empty, covers the changed
+    rectangle, and both offsets are even (so that the container's halved offsets
+    read back exactly). *)
+Theorem C08_snap_even_covers_and_offsets_even : forall W H r, good_rect W H r ->
+  let r2 := intersect (snap_to_even r) (canvas_bounds W H) in
+  good_rect W H r2 /\ rx0 r2 mod 2 = 0 /\ ry0 r2 mod 2 = 0 /\
+  (forall x y, in_rect r x y = true -> in_rect r2 x y = true).
+Proof. exact snap_clip_good. Qed.
+Print Assumptions C08_snap_even_covers_and_offsets_even.
+
+(** A pixel the blending test accepts is reproduced by blending the (possibly
+    cleared, clearKeptPixels) sub-frame pixel over the canvas pixel. *)
+Theorem C08_blend_candidate_sound : forall b t,
+  lossless_px_ok b t = true -> norm_px (blend_spec (kept b t) b) = norm_px t.
+Proof. exact (lossless_ok_sound norm_px). Qed.
+Print Assumptions C08_blend_candidate_sound.
+
+(** The defects of the code as pinned, as statements about the explicitly named
+    variants [pinned] / [mkfixes true false false] of the model. *)
 Theorem C08_anim_lossless_roundtrip_refuted_blend :
   ~ anim_lossless_roundtrip_statement pinned.
 Proof. exact anim_lossless_roundtrip_refuted_blend. Qed.
@@ -19,10 +79,17 @@ Theorem C08_blend_candidate_sound_refuted :
 Proof. exact blend_candidate_sound_refuted. Qed.
 Print Assumptions C08_blend_candidate_sound_refuted.
 
-(** ... and still false with only the blend test repaired: after a duration-overflow
-    filler frame prevFrameRect is stale, the dispose-to-background candidate is
-    simulated on the wrong rectangle. *)
 Theorem C08_anim_lossless_roundtrip_refuted_filler :
   ~ anim_lossless_roundtrip_statement (mkfixes true false false).
 Proof. exact anim_lossless_roundtrip_refuted_filler. Qed.
 Print Assumptions C08_anim_lossless_roundtrip_refuted_filler.
+
+(** Tie to the source: the limits the model uses are the constants of the code
+    (regenerated on every run). *)
+Theorem C08_limits_match_source :
+  max_duration = WebpGen.Consts.animation_maxDuration /\
+  max_loop_count = WebpGen.Consts.animation_maxLoopCount /\
+  max_canvas_dimension = WebpGen.Consts.animation_maxCanvasDimension /\
+  max_duration = WebpGen.Consts.mux_maxDuration.
+Proof. repeat split; reflexivity. Qed.
+Print Assumptions C08_limits_match_source.
